@@ -45,6 +45,12 @@ type Case struct {
 	AllowIDP bool             `json:"allow_idp_initiated,omitempty"` // windows must hold whether or not IdP-initiated login is allowed
 	Resp     int64            `json:"resp"`                          // response IssueInstant margin
 	Asserts  []AssertionTimes `json:"asserts"`
+	// Trust: the SP's trust configuration ("" = meta1; every configuration trusts the signing key used here).
+	// Warm: the same ServiceProvider value has processed an ordinary valid login before this message.
+	Trust string `json:"trust,omitempty"`
+	Warm  bool   `json:"warm,omitempty"`
+	// Noise: options of the SP that concern only what it sends (see spkit.Noise); the verdict must not depend on them
+	Noise uint64 `json:"noise,omitempty"`
 }
 
 const (
@@ -170,7 +176,11 @@ func check(c Case) pbt.Result {
 	if err != nil {
 		return pbt.Result{Err: "harness: cannot build message: " + err.Error()}
 	}
-	sp := spkit.NewSP(spkit.Config{Trust: "meta1", AllowIDPInit: c.AllowIDP})
+	sp := spkit.NewSP(spkit.Config{Trust: c.Trust, AllowIDPInit: c.AllowIDP})
+	spkit.Noise(sp, c.Noise)
+	if c.Warm {
+		spkit.WarmUp(sp, c.now())
+	}
 	var o spkit.Outcome
 	switch c.Entry {
 	case "post":
@@ -191,6 +201,15 @@ func check(c Case) pbt.Result {
 	}
 
 	res := pbt.Result{Classes: []string{"lex:" + c.Lex, "layout:" + c.Layout, fmt.Sprintf("asserts:%d", len(c.Asserts))}}
+	if c.Trust != "" {
+		res.Classes = append(res.Classes, "sp-trust:"+c.Trust)
+	}
+	if c.Noise != 0 {
+		res.Classes = append(res.Classes, "sp-unrelated-options-set")
+	}
+	if c.Warm {
+		res.Classes = append(res.Classes, "sp-served-a-login-before")
+	}
 	// model
 	anyInside, allOutside := false, true
 	near, opposite := false, false
@@ -347,6 +366,13 @@ func gen(t *rapid.T) Case {
 	}
 	c.NoDest = c.Layout == "assert" && rapid.IntRange(0, 2).Draw(t, "nodest") == 0
 	c.AllowIDP = rapid.IntRange(0, 3).Draw(t, "allowidp") == 0
+	if rapid.IntRange(0, 2).Draw(t, "othertrust") == 0 {
+		c.Trust = rapid.SampledFrom(spkit.Trusts).Draw(t, "trust")
+	}
+	c.Warm = rapid.IntRange(0, 3).Draw(t, "warm") == 0
+	if rapid.IntRange(0, 2).Draw(t, "noise?") == 0 {
+		c.Noise = rapid.Uint64Range(1, 255).Draw(t, "noise")
+	}
 	if rapid.Bool().Draw(t, "stdtol") {
 		tol := rapid.SampledFrom(tolerances).Draw(t, "tol")
 		c.DelayNs, c.SkewNs = tol[0], tol[1]
